@@ -1062,7 +1062,7 @@ pub fn replay(mon: &str, case: &J) -> bool {
     let kind = case.get("kind").and_then(J::as_str).unwrap_or("");
     let sel = ChildSel { child: false, shard: 0, nshards: 1, from: 0 };
     // the context of the original run matters only through the seed, which the driver passes again
-    let ctx = Ctx { monitor: mon.to_string(), tier: Tier::Quick, seed: case.get("seed").and_then(J::as_u64).unwrap_or(0), build: String::new(), out: None, args: Default::default() };
+    let _ctx = Ctx { monitor: mon.to_string(), tier: Tier::Quick, seed: case.get("seed").and_then(J::as_u64).unwrap_or(0), build: String::new(), out: None, args: Default::default() };
     let mut st = Stats::default();
     match kind {
         "frame" => {
